@@ -342,6 +342,7 @@ def Encodable (cx : Ctx) : AttrVal → Prop
   | .lineProgramRef => ∃ off, cx.lineProgram = some off ∧ fitsIn off cx.enc.word
   | .stringRef idx => ∃ off, cx.strOffsets[idx]? = some off ∧ fitsIn off cx.enc.word
   | .lineStringRef idx => ∃ off, cx.lineStrOffsets[idx]? = some off ∧ fitsIn off cx.enc.word
+  | .string bs => bs.contains 0 = false
   | _ => True
 
 theorem udata_emit_fits (e : Endian) (v size : Nat) (em : Emit)
@@ -350,8 +351,8 @@ theorem udata_emit_fits (e : Endian) (v size : Nat) (em : Emit)
   exact writeUdata_ok_fits _ _ _ _ hb
 
 /-- **A value too large for its form, an address that needs relocation, a symbolic reference, a
-line-program reference without a line program, an address size `write_udata` cannot write: each
-is an error, never bytes.**  Stated as its contrapositive: if `AttributeValue::write` produced
+line-program reference without a line program, an address size `write_udata` cannot write, a
+string value containing a NUL byte: each is an error, never bytes.**  Stated as its contrapositive: if `AttributeValue::write` produced
 bytes, the value was encodable. -/
 theorem unencodable_value_is_error (cx : Ctx) (pos : Nat) (v : AttrVal) (em : Emit)
     (h : attrEmit cx pos v = .ok em) : Encodable cx v := by
@@ -385,6 +386,7 @@ theorem unencodable_value_is_error (cx : Ctx) (pos : Nat) (v : AttrVal) (em : Em
     cases hg : cx.lineStrOffsets[idx]? with
     | none => simp [hg] at ho
     | some o => simp only [hg, Out.ok.injEq] at ho; rw [ho]
+  case string bs => exact (string_emit_inv bs em h).1
 
 /-- **An unencodable value anywhere in the tree makes the whole write fail**: if pass 2 produced
 bytes for a tree then every attribute value of every entry of it is encodable. -/
@@ -394,8 +396,53 @@ theorem unencodable_is_error (cx : Ctx) (t : Tree) (pos : Nat) (em : Emit)
   obtain ⟨pos', em', h'⟩ := emitTree_ok_each cx t pos em h v hv
   exact unencodable_value_is_error cx pos' v em' h'
 
-/-- **Unsupported version → `UnsupportedVersion`**, whatever the unit contains. -/
+/-- **A NUL byte inside an `AttributeValue::String` → `InvalidAttributeValue`**, at any position,
+under any encoding, before a byte of the value is written (repair of finding C11-2: the value
+used to be emitted verbatim and read back as a shorter string followed by garbage). -/
+theorem nul_in_string_is_error (cx : Ctx) (pos : Nat) (bs : Bytes) (h : (0 : UInt8) ∈ bs) :
+    attrEmit cx pos (.string bs) = .err .wInvalidAttributeValue := by
+  simp [attrEmit, h]
+
+/-- … and therefore a tree that carries such a string anywhere is never written. -/
+theorem nul_in_string_anywhere_is_error (cx : Ctx) (t : Tree) (pos : Nat) (em : Emit) (bs : Bytes)
+    (hmem : AttrVal.string bs ∈ t.attrVals) (h0 : (0 : UInt8) ∈ bs) : emitTree cx pos t ≠ .ok em := by
+  intro h
+  have := unencodable_is_error cx t pos em h _ hmem
+  simp only [Encodable] at this
+  have h1 : bs.contains 0 = true := by simpa using h0
+  rw [h1] at this; cases this
+
+/-- **An address size other than 1, 2, 4 or 8 → `UnsupportedWordSize`**, whatever the unit
+contains and whatever its version, before anything is written to any section (repair of finding
+C11-1: such a unit used to be written whenever no attribute needed the address size, and its
+header cannot be read). -/
+theorem bad_address_size_is_error (e : Endian) (so lso : List Nat) (s : Sec) (u : UnitIn)
+    (ha : ¬ (u.enc.addrSize = 1 ∨ u.enc.addrSize = 2 ∨ u.enc.addrSize = 4 ∨ u.enc.addrSize = 8)) :
+    writeUnit e so lso s u = .err .wUnsupportedWordSize := by
+  unfold writeUnit
+  simp [ha]
+
+/-- contrapositive: every unit that is written has a readable address size and version -/
+theorem written_unit_is_readable (e : Endian) (so lso : List Nat) (s s' : Sec) (u : UnitIn) (o : Offs)
+    (h : writeUnit e so lso s u = .ok (s', o)) :
+    (u.enc.addrSize = 1 ∨ u.enc.addrSize = 2 ∨ u.enc.addrSize = 4 ∨ u.enc.addrSize = 8) ∧
+      2 ≤ u.enc.version ∧ u.enc.version ≤ 5 := by
+  refine ⟨?_, ?_⟩
+  · apply Classical.byContradiction
+    intro ha
+    rw [bad_address_size_is_error e so lso s u ha] at h; cases h
+  · obtain ⟨hdr, _, _, _, hh, _⟩ := writeUnit_inv e so lso s s' u o h
+    unfold unitHeader at hh
+    split at hh
+    · omega
+    · split at hh
+      · omega
+      · cases hh
+
+/-- **Unsupported version → `UnsupportedVersion`**, whatever the unit contains (the address size
+is checked first, so it must be one `Unit::write` accepts). -/
 theorem unsupported_version_is_error (e : Endian) (so lso : List Nat) (s : Sec) (u : UnitIn)
+    (ha : u.enc.addrSize = 1 ∨ u.enc.addrSize = 2 ∨ u.enc.addrSize = 4 ∨ u.enc.addrSize = 8)
     (hv : u.enc.version < 2 ∨ 5 < u.enc.version) :
     writeUnit e so lso s u = .err .wUnsupportedVersion := by
   have hh : unitHeader e u.enc s.abbr.length = .err .wUnsupportedVersion := by
@@ -404,7 +451,7 @@ theorem unsupported_version_is_error (e : Endian) (so lso : List Nat) (s : Sec) 
     have h2 : ¬ u.enc.version = 5 := by omega
     simp [h1, h2]
   unfold writeUnit
-  simp [hh]
+  simp [hh, ha]
 
 /-- **A reference to an entry that was never laid out is an error** (`InvalidReference`, or the
 documented slice panic for an id beyond `entries.len()`), never a patched placeholder: if the
